@@ -105,12 +105,15 @@ def kvsEvs (q : J) (has : Option Bool) (props addl : List (String × Out)) : Lis
   | [] => []
   | (k, _) :: r => memberEvs q has props addl k ++ kvsEvs q has props addl r
 
+/-- the member afterwards: what its sub-visit left, or the member itself when nothing visits it -/
+def selFin (sel : Option Out) (x : J) : J := match sel with | some o => o.2 | none => x
+
 def asmKvs (m : Mode) (has : Option Bool) (props addl : List (String × Out)) : Bool → List (String × J) → List (String × J)
   | _, [] => []
   | stop, (k, x) :: r =>
     if stop then (k, x) :: asmKvs m has props addl true r
     else
-      (k, match propSel has (lookup k props) (lookup k addl) with | some o => o.2 | none => x) ::
+      (k, selFin (propSel has (lookup k props) (lookup k addl)) x) ::
         asmKvs m has props addl (haltsL m (memberEvs .null has props addl k)) r
 
 /-- own keywords of the node `v` (after the compositions): events and the node afterwards -/
